@@ -1,5 +1,5 @@
 CONSTANTS
-  Clauses = {"TokensTile", "SpansOk", "LabelsOk", "FragmentsFaithful", "EventsOrdered", "ReportRenders"}
+  Clauses = {"SpansOk", "LabelsOk", "FragmentsFaithful", "EventsOrdered", "ReportRenders"}
 INIT TInit
 NEXT TNext
 CHECK_DEADLOCK FALSE
